@@ -15,7 +15,7 @@ LEVEL = "model_checking"
 SHAPES = [("simplex", 2), ("simplex", 3), ("hypercube", 2), ("hypercube", 3)]
 GROUP = {"lagrange1": 1, "lagrange2": 1, "discontinuous0": 1, "discontinuous1": 1, "lagrange3": 2, "crorav": 2, "bernstein2": 3, "p2bubble": 3,
          "q1tbnp": 3, "cdssy": 3, "hermite3": 4, "argyris": 4, "bfs": 4}
-BINS = ["c15_element_g1", "c15_element_g2", "c15_element_g3", "c15_element_g4"]
+BINS = ["c15_element_g1", "c15_element_g2", "c15_element_g3", "c15_element_g4", "c15_isoparam"]
 MESHDIR = os.path.join(vlib.REPO, "data", "meshes")
 FILES_QUICK = [("unit-circle-tria.xml", "simplex", 2), ("unit_circle_quad_5.xml", "hypercube", 2), ("unit-sphere-tetra.xml", "simplex", 3),
                ("cube_cylinder_hole_hexa_8.xml", "hypercube", 3), ("unit-square-quad-aniso.xml", "hypercube", 2)]
@@ -81,8 +81,8 @@ def make_cases(tier, table, meshes):
         for ti, t in enumerate(els.get((fam, dim), [])):
             if tier == "quick" and dim == 3:
                 stride = {"pair": 8 if fam == "hypercube" else 4, "single": 3}[mode]
-                if t["el"] == "lagrange3":
-                    stride *= 2
+                if t["el"] == "lagrange3" and mode != "pair":
+                    stride *= 2       # (the gluings keep the common stride: they realise the four rotations of a shared quadrilateral face)
                 if (k + ti) % stride != 0:
                     continue
             add(m, t, nref=1 if (mode == "single" and k % 2 == 0) else 0)
@@ -154,6 +154,22 @@ def _run(chk, tier, bins, gdir):
     chk.extra["exact_reference_comparisons"] = ncmp
     chk.extra["exact_reference_families"] = sorted(set("%s/%s%d" % (c["el"], c["fam"], c["dim"]) for c in refcases))
 
+    # ---- G: the isoparametric transformation (degree 2, quadrilaterals with chart-curved edges) ----
+    ri = vlib.tlc("IsoTrafo", timeout=900)
+    chk.add_tlc(ri, "IsoTrafo")
+    if ri.violation:
+        chk.model_violation(ri, "IsoTrafo (exact domain / validity of the catalogue cells)")
+        return
+    isocases = ri.printed
+    if not isocases:
+        raise vlib.MachineryError("IsoTrafo generated no cases")
+    res = vlib.run_cases(bins[4], isocases, tmo=120, shards=4)
+    vlib.judge_results(chk, isocases, res, lambda c, rr: {"kind": "iso", "cell": c["cell"], "ncurved": len(c["curved"]), "pred": rr.get("pred", rr.get("outcome", "mismatch"))},
+                       keyf=lambda c: "iso %d %s" % (c["cell"], json.dumps(c["P"])), harness="c15_isoparam", nontrivial=lambda c: len(c["curved"]) > 0)
+    chk.extra["isoparametric_cases"] = len(isocases)
+    chk.extra["isoparametric_exact_comparisons"] = sum(rr.get("ncmp", 0) for rr in res)
+    chk.extra["isoparametric_worst"] = {k: max([rr.get(k, 0.0) for rr in res] or [0.0]) for k in ("worst_inv", "worst_unmap", "worst_space")}
+
     # ---- V: meshes ----
     meshes = gen_meshes(chk, tier)
     cases = make_cases(tier, table, meshes)
@@ -199,7 +215,7 @@ def _run(chk, tier, bins, gdir):
             obs = {k: d[k] for k in ("rep", "dgrad", "dhess", "jump", "gjump", "mjump", "inv", "nmono", "axpar", "dyadic", "volnoise") if k in d}
             chk.violation(sig_mesh(c, p), "%s (%s %s%d %s): %s does not hold; observed %s" % (d["id"], c["srcname"], c["fam"], c["dim"], c["el"], p, json.dumps(obs)),
                           {"kind": "case", "harness": "c15_element_g%d" % GROUP[c["el"]], "case": slim, "verdict": v, "observed": obs})
-    chk.traces = len(full) + len(refcases)
+    chk.traces = len(full) + len(refcases) + len(isocases)
     chk.exhaustive = True
     chk.extra["generated_meshes"] = len(meshes)
     fams = {}
@@ -215,7 +231,10 @@ def _run(chk, tier, bins, gdir):
                 "cells (= every relative orientation of a shared facet) and every rotation of one cell, plus factories and shipped unstructured meshes; for every "
                 "family x mesh the real dof mapping, dof assignment, interpolation, evaluation and transformation are observed and judged by spec/ElementCheck.tla "
                 "(NumDofs, MapMatches, AssignMatches, OneIndexPerFunctional, Reproduce, DerivConsistent, Continuous, GradContinuous, FacetMeanContinuous, "
-                "TrafoVolume, InverseMapping); a case = (mesh, route, family); non-trivial = has an interior facet or is a single cell; quick tier sub-samples "
+                "TrafoVolume, InverseMapping).  Isoparametric part (G): spec/IsoTrafo.tla defines the degree-2 map of catalogue quadrilaterals with circle-curved edges "
+                "in all 4 local rotations exactly (integer polynomials) and emits img_point / jac_mat / hess_ten at the lattice points and the exact volume; replayed into "
+                "Trafo::Isoparam (==), plus jac_inv / hess_inv / InverseMapping / Lagrange-1/2 physical gradients and Hessians against the chain rule of the specified tensors.  "
+                "A case = (mesh, route, family); non-trivial = has an interior facet or is a single cell; quick tier sub-samples "
                 "the 3D gluings (stride 3-16)")
     for d in full[:: max(1, len(full) // 3)][:3]:
         c = byid[d["id"]]
@@ -225,8 +244,8 @@ def _run(chk, tier, bins, gdir):
                        "the local dof count: Lagrange-1/2/3, Discontinuous, Crouzeix-Raviart, Bernstein-2 (axis-parallel cells), Hermite-3 and Argyris on triangles); "
                        "P2-bubble, Rannacher-Turek, Q1~-bnp, CDSSY only on the contained polynomial space; Bogner-Fox-Schmit has no node functionals (no Reproduce)",
                        "DerivConsistent is decided on the reproduced polynomials (exact derivatives of the monomials), not on arbitrary members of the local space",
-                       "non-dyadic families / meshes are judged through stated floating-point tolerances (projection principle); only the standard transformation "
-                       "(no isoparametric), dimensions 2 and 3"]
+                       "non-dyadic families / meshes are judged through stated floating-point tolerances (projection principle); the isoparametric transformation only for quadrilaterals of degree 2 "
+                       "with a circle chart (not degree 3, simplices, hexahedra); dimensions 2 and 3"]
 
 
 def replay(obj):
